@@ -22,10 +22,18 @@ RULE = ('cases = (active level 0..6, prefix size 0..80, 0..4 groups (levels 0..5
         '30 % of the contexts are 2..6 adds whose CAPTIONS REPEAT with different levels (both orders, other groups in between, the caption-less main group extended later, '
         'equal levels as control, active level at / between / below the levels of the repeated caption): OptionContext::add merges them, the merged group must be shown '
         'iff some part has a level <= the active level (level = minimum) - the model performs the same merge, the oracle computes it on its own; '
+        '25 % of the contexts DECLARE their options THROUGH KEY STRINGS name[!][,alias][,@level] handed to the real group.addOptions()(key, value, desc): every subset of the optional '
+        'parts, escaped "\\!", alias characters "@" and digits, level numbers with leading zeros, values that carry a level of their own, in groups of non-default level whose level is '
+        'lowered (or kept / raised: controls) AFTER the declaration by setDescriptionLevel or by a merge with a same-caption group, active level around these levels; 1/3 of them with '
+        'malformed keys (must be refused: observed as a status) or keys from corners the documented syntax does not settle (trailing ",", "@" without number, "," as alias, level number '
+        'that wraps the unsigned: correspondence with the model only); the oracle reads the key with its own reference reading of the syntax (omitted @level = level of the declaring '
+        'group when the key has a "," part, level of the value for a plain key) and derives the expected visibility from that; '
         'non-trivial = at least one option is visible at the active level; distinct = distinct case tuples')
 TRUSTED_BASE = ['sprintf / vector<char> / std::string are modelled (sprintf: the four directives that occur, "write k bytes and a NUL")',
                 'props/C19.py reference rendering (oracle on the implementation)']
 ASSUMPTIONS = ['names, argument names, descriptions, defaults are NUL-free C strings; option names are ASCII without , ! = blank quote backslash and unique',
+               'key strings are NUL-free; `unsigned` is 32 bits wide (the level number of a key is accumulated in an unsigned); keys from the corners the documented syntax does not '
+               'settle ("name,a,", "name,a,@", "name,,", level numbers of more than 9 digits, group level above 5) are compared with the model but not judged by the oracle',
                'c19_defaults_parse: every visible default is command-line safe (no blank, quote, backslash; non-empty unless the option is implicit)']
 ALLOWED_AXIOMS = []
 TECHNIQUE = 'Coq proof about an executable model of the three formatters, description(), defaults() and the command-string reader + differential correspondence under ASan'
@@ -33,7 +41,9 @@ DESIGN_REF = 'DESIGN.md section 5, C19'
 LEVEL_TEXT = ('Machine-checked proofs (Coq): no sprintf of DefaultFormat::format writes outside the bufSize-sized vector for any name/argument/alias/flag '
               'combination and any maxW; the description lists exactly the visible options once with their decorations and substituted placeholders; '
               'defaults() mentions exactly the visible options with a default; for a context put together by any sequence of OptionContext::add calls (groups with equal '
-              'captions merged, level = minimum) an option is listed at level L iff its own level <= L and some group of its caption was given a level <= L, in any order of the adds. '
+              'captions merged, level = minimum) an option is listed at level L iff its own level <= L and some group of its caption was given a level <= L, in any order of the adds; '
+              'the key syntax name[!][,alias][,@level] of the option-init helper accepts exactly the keys of a declaratively given form and declares exactly the option each denotes (an omitted '
+              '@level = the level of the declaring group at declaration time as soon as the key has a "," part), refuses every other byte string, and reads back what is rendered. '
               'The model is tied to the code by differential correspondence (ASan/UBSan build) '
               'and an independent python oracle that also runs the real parseCommandString on the real defaults().')
 LEVEL_NOTE = 'The default command line parses back only for command-line safe defaults (known findings for blank / quote / backslash / empty defaults).'
@@ -76,21 +86,32 @@ def _decode(c):
     groups = []
     for _ in range(ng):
         cap = st()
-        lvl = nx()
+        raw = nx()
+        # level >= 8: created with level raw/8-1 (the level the options are DECLARED under), setDescriptionLevel(raw%8) before the add
+        decl, lvl = (raw, raw) if raw < 8 else (raw // 8 - 1, raw % 8)
         no = nx()
         opts = []
         for _ in range(no):
             name = st()
-            alias, neg, level, flag = nx(), nx() != 0, nx(), nx() != 0
+            alias, neg, level, fl = nx(), nx() != 0, nx(), nx()
+            flag, keyed = (fl & 1) != 0, (fl & 2) != 0
             arg, impl, dflt = ost(), ost(), ost()
             desc = st()
-            opts.append({'arg_raw': arg, 'impl_raw': impl,
-                         'name': name, 'alias': alias, 'neg': neg, 'level': level, 'flag': flag,
-                         'arg': arg if arg is not None else ([] if flag else list(b'<arg>')),
-                         'implicit': flag or impl is not None,
-                         'impstr': impl if impl else [49],
-                         'dflt': dflt, 'desc': desc})
-        groups.append({'cap': cap, 'level': lvl, 'opts': opts})
+            o = {'arg_raw': arg, 'impl_raw': impl,
+                 'name': name, 'alias': alias, 'neg': neg, 'level': level, 'flag': flag,
+                 'arg': arg if arg is not None else ([] if flag else list(b'<arg>')),
+                 'implicit': flag or impl is not None,
+                 'impstr': impl if impl else [49],
+                 'dflt': dflt, 'desc': desc, 'kstat': None}
+            if keyed:
+                # declared through its key string: what the key denotes is worked out by the reference reading of the syntax (ref_key)
+                o.update(key=name, vlevel=level, alias=0, neg=False)
+                r = ref_key(name, decl, level)
+                o['kstat'] = r[0]
+                if r[0] == 'ok':
+                    o.update(name=r[1], neg=r[2], alias=r[3], level=r[4])
+            opts.append(o)
+        groups.append({'cap': cap, 'level': lvl, 'decl': decl, 'level_raw': raw, 'opts': opts})
     dirs = []
     if p[0] < len(c):
         for _ in range(nx()):
@@ -100,17 +121,87 @@ def _decode(c):
     return active, prefix, groups, dirs
 
 
+def ref_key(key, gl, vl):
+    """Reference reading of the key syntax  name[!][,alias][,@level]  (independent of the Coq model and of the C++: split at the commas).
+    gl = level of the group at the time of the declaration, vl = level the value carries.
+    -> ('ok', name, negatable, alias, level) | ('refused',) | ('unjudged',)
+    name: non-empty, not starting with '!'; a trailing '!' marks the option negatable unless written "\\!" (then the name ends in '!');
+    alias: exactly one character, in front of the level; level: '@' + decimal number 0..5 (desc_level_hidden).
+    An omitted @level means: the level of the GROUP the option is declared in when the key has a ',' part (alias), the value's own level
+    for a plain key.  Everything else must be refused, except the corners the documented syntax does not settle, which are not judged
+    (correspondence with the model only): a ',' as alias character ("name,,"), a trailing ',' behind the alias, '@' without digits behind an
+    alias, a level number of more than 9 digits (unsigned wrap-around), a group level above 5."""
+    if 0 in key:
+        return ('unjudged',)
+    parts, cur = [], []
+    for b in key:
+        if b == 44:
+            parts.append(cur)
+            cur = []
+        else:
+            cur.append(b)
+    parts.append(cur)
+    head, tail = parts[0], parts[1:]
+    if not head or head[0] == 33:
+        return ('refused',)
+    if head[-1] == 33:
+        name, neg = (head[:-2] + [33], False) if (len(head) >= 2 and head[-2] == 92) else (head[:-1], True)
+    else:
+        name, neg = head, False
+    if not tail:
+        return ('ok', name, neg, 0, vl)
+
+    def is_level(p_):
+        return len(p_) >= 2 and p_[0] == 64 and all(48 <= b <= 57 for b in p_[1:])
+    alias, digits = 0, None
+    if len(tail) >= 2 and tail[0] == [] and tail[1] == []:
+        return ('unjudged',)                                   # "name,,...": the alias character is a ','
+    if len(tail) == 1:
+        if len(tail[0]) == 1:
+            alias = tail[0][0]
+        elif is_level(tail[0]):
+            digits = tail[0][1:]
+        else:
+            return ('refused',)
+    elif len(tail) == 2:
+        if len(tail[0]) != 1:
+            return ('refused',)
+        alias = tail[0][0]
+        if is_level(tail[1]):
+            digits = tail[1][1:]
+        elif tail[1] in ([], [64]):
+            return ('unjudged',)                               # "name,a," / "name,a,@"
+        else:
+            return ('refused',)
+    else:
+        return ('refused',)
+    if digits is None:
+        if gl > 5:
+            return ('unjudged',)
+        return ('ok', name, neg, alias, gl)
+    if len(digits) > 9:
+        return ('unjudged',)
+    lv = int(bytes(digits))
+    return ('ok', name, neg, alias, lv) if lv <= 5 else ('refused',)
+
+
 def describe(c):
     active, prefix, groups = decode(c)
     out = []
     for g in groups:
         os_ = []
         for o in g['opts']:
+            if o['kstat'] is not None:
+                os_.append('key %r (value level %d)%s arg=%r%s%s desc=%r' % (s2t(o['key']), o['vlevel'], ' flag' if o['flag'] else '', s2t(o['arg']),
+                                                                         ' implicit=%r' % s2t(o['impstr']) if o['implicit'] else '',
+                                                                         '' if o['dflt'] is None else ' default=%r' % s2t(o['dflt']), s2t(o['desc'])[:40]))
+                continue
             os_.append('%s%s%s@%d%s arg=%r%s%s desc=%r' % (s2t(o['name']), '!' if o['neg'] else '', (',' + chr(o['alias'])) if o['alias'] else '',
                                                        o['level'], ' flag' if o['flag'] else '', s2t(o['arg']),
                                                        ' implicit=%r' % s2t(o['impstr']) if o['implicit'] else '',
                                                        '' if o['dflt'] is None else ' default=%r' % s2t(o['dflt']), s2t(o['desc'])[:40]))
-        out.append('group %r@%d {%s}' % (s2t(g['cap']), g['level'], '; '.join(os_)))
+        lv = '%d' % g['level'] if g['level_raw'] < 8 else '%d, setDescriptionLevel(%d) before the add' % (g['decl'], g['level'])
+        out.append('group %r@%s {%s}' % (s2t(g['cap']), lv, '; '.join(os_)))
     dn = {0: 'refused(duplicate name of #%d)', 1: 'refused(duplicate alias of #%d)', 2: 'split', 3: 'refused(duplicate name of #%d, alias #)'}
     ds = ['group %d after %d option(s): %s%s' % (g, k, (dn.get(kind, 'refused(duplicate name of #%d)') % t) if kind != 2 else 'split',
                                                ' + %d more option(s)' % nt if kind != 2 else '') for g, k, kind, t, nt in directives(c)]
@@ -222,13 +313,34 @@ def oracle(c, obs):
     def tstr():
         n = take(1)
         return take(n[0]) if n else None
+    # every declaration is echoed: the registered option (name, alias, level, negatable) or -1 = the init helper refused the key
+    for g in groups:
+        kept = []
+        for o in g['opts']:
+            st = o['kstat']
+            first = take(1)
+            if first == [-1]:
+                if st in (None, 'ok'):
+                    return ['key-syntax:well-formed-key-refused']
+                continue
+            nm = take(first[0]) if first else None
+            rest = take(3)
+            if nm is None or len(rest) != 3:
+                return ['observation-too-short']
+            if st == 'refused':
+                return ['key-syntax:malformed-key-accepted']
+            if st == 'unjudged':
+                o.update(name=nm, alias=rest[0], level=rest[1], neg=rest[2] != 0)     # a corner the syntax does not settle: taken as observed
+            elif nm != o['name'] or rest != [o['alias'], o['level'], 1 if o['neg'] else 0]:
+                if st == 'ok' and nm == o['name'] and rest[0] == o['alias'] and rest[2] == (1 if o['neg'] else 0) and 64 not in o['key']:
+                    # only the level differs and the key has no @level part: the default was taken from the wrong place
+                    return ['key-syntax:omitted-level-is-not-the-level-of-the-declaring-group' if 44 in o['key']
+                            else 'key-syntax:plain-key-changed-the-level-of-its-value']
+                return ['key-syntax:option-differs-from-key']
+            kept.append(o)
+        g['opts'] = kept
     allopts = [o for g in groups for o in g['opts']]          # registration order = order of the adds
     pieces, groups = groups, merged(groups)
-    for o in allopts:
-        nm = tstr()
-        rest = take(3)
-        if nm != o['name'] or rest != [o['alias'], o['level'], 1 if o['neg'] else 0]:
-            return ['key-syntax:option-differs-from-key']
     text = tstr()
     take(1)
     defs = tstr()
@@ -307,6 +419,8 @@ def oracle(c, obs):
 def nontrivial(c, obs):
     active, prefix, groups = decode(c)
     dl = min(active, LEVEL_ALL)
+    for g in groups:
+        g['opts'] = [o for o in g['opts'] if o['kstat'] in (None, 'ok')]
     return any(g['level'] <= dl and o['level'] <= dl for g in merged(groups) for o in g['opts'])
 
 
@@ -444,6 +558,112 @@ def gen_case(rnd, p_unsafe, p_refused=False, p_merge=False):
     return enc
 
 
+ALIAS_CH = 'abcdefghijklmnopqrstuvwxyzABCDEFGHIJKLMNOPQRSTUVWXYZ0123456789?#+'
+# keys the init helper must refuse ({n} = a fresh name, {a} = a fresh alias character) ...
+BAD_KEYS = ['', ',{n}', '!{n}', '!', ',', '{n},', '{n},{a}b', '{n},{a},b', '{n},{a},{a}', '{n},@6', '{n},@12', '{n},@2,{a}', '{n},{a}@2', '{n},@2x', '{n},@x',
+            '{n},{a},@2,', '{n},{a},@2,@3', '{n},@-1', '{n},@ 1', '{n},{a},@6', '{n},{a},@2 ', '{n}!,{a}b', '{n},@1@2', '{n},{a},2', '{n},@9', '{n},{a},@55',
+            '{n},{a},x', '{n},ab,@1']
+# ... and the corners the documented syntax does not settle (accepted or refused by the code; correspondence with the model, not judged by the oracle)
+ODD_KEYS = ['{n},{a},', '{n},{a},@', '{n},,', '{n},,,@3', '{n},,,', '{n},@4294967296', '{n},@4294967301', '{n},@4294967302', '{n},@00000000002', '{n},{a},@0000000005',
+            '{n}!,{a},', '{n},{a},@4294967297']
+
+
+def rand_value_fields(rnd, p_default=0.75):
+    """arg? impl? dflt? desc of an option (command-line safe defaults)"""
+    e = []
+    r = rnd.random()
+    if r < 0.5:
+        e += [0]
+    elif r < 0.6:
+        e += [1, 0]
+    else:
+        e += [1] + enc_str(rand_text(rnd, rnd.choice([1, 2, 5, 10]), False))
+    e += ([1] + enc_str(rnd.choice(['1', 'yes', 'auto']))) if rnd.random() < 0.25 else [0]
+    if rnd.random() < p_default:
+        d = ''.join(rnd.choice(SAFE_CH) for _ in range(rnd.choice([1, 1, 2, 4, 8])))
+        e += [1] + enc_str('x' + d[1:] if d.startswith('-') else d)
+    else:
+        e += [0]
+    return e + enc_str(rand_text(rnd, rnd.choice([0, 1, 2, 10, 40])))
+
+
+def gen_keyed_case(rnd, p_bad=0.0, p_odd=0.0):
+    """Options DECLARED THROUGH KEY STRINGS  name[!][,alias][,@level]  (group.addOptions()(key, value, desc)): every subset of the optional
+    parts (negation mark, alias, @level), escaped "\\!", alias characters '@' and digits, level numbers with leading zeros, values that carry a
+    level of their own; in groups of NON-DEFAULT level whose level is LOWERED afterwards - by setDescriptionLevel before the add or by a merge
+    with a same-caption group of a lower level - (or raised, or kept: controls), with the active level chosen around these levels.
+    p_bad: share of keys the init helper must refuse; p_odd: share of keys from the corners the syntax does not settle."""
+    ng = rnd.choice([1, 2, 2, 3, 3, 4])
+    pool = rnd.choice([['Solving'], ['Solving', 'Basic'], ['', 'Solving'], ['Solving', '', 'Other'], ['Solving', 'Solving ', 'Basic']])
+    caps = [rnd.choice(pool) for _ in range(ng)]
+    if ng >= 2 and rnd.random() < 0.6:
+        caps[-1] = caps[0]                                  # a later part of the first group (merge)
+    levels = []
+    for g in range(ng):
+        decl = rnd.choice([0, 1, 2, 2, 3, 3, 4, 5])
+        r = rnd.random()
+        add = decl if r < 0.45 else rnd.randint(0, decl) if r < 0.9 else rnd.randint(decl, 5)
+        levels.append((decl, add))
+    around = sorted({x for d, a in levels for x in (d, a, d - 1, a - 1, d + 1) if 0 <= x <= 6})
+    active = rnd.choice(around) if rnd.random() < 0.85 else rnd.choice([0, 1, 2, 3, 4, 5, 6])
+    enc = [active, rnd.choice([0, 0, 4, 20, 70]), ng]
+    used, aliases = set(), set()
+
+    def fresh_alias(pool_=ALIAS_CH):
+        for _ in range(20):
+            a = rnd.choice(pool_)
+            if a not in aliases:
+                aliases.add(a)
+                return a
+        return None
+    for g in range(ng):
+        decl, add = levels[g]
+        raw = decl if (add == decl and rnd.random() < 0.5) else 8 * (decl + 1) + add
+        no = rnd.choice([1, 1, 2, 2, 3, 4])
+        enc += enc_str(caps[g]) + [raw, no]
+        for _ in range(no):
+            name = rand_name(rnd, used)[:rnd.choice([3, 8, 20, 60])]
+            while name in used and len(name) < 60:
+                name += rnd.choice(NAME_CH[:26])
+            used.add(name)
+            flag = 1 if rnd.random() < 0.3 else 0
+            if rnd.random() < 0.12:
+                # the harness writes the key itself (explicit level): control
+                a = fresh_alias() if rnd.random() < 0.4 else None
+                enc += enc_str(name) + [ord(a) if a else 0, 1 if rnd.random() < 0.3 else 0, rnd.choice([0, 0, 1, 2, 3, 5]), flag] + rand_value_fields(rnd)
+                continue
+            vl = 0 if rnd.random() < 0.7 else rnd.choice([1, 2, 3, 4, 5])
+            q = rnd.random()
+            if q < p_bad:
+                a = fresh_alias() or 'a'
+                key = rnd.choice(BAD_KEYS).replace('{n}', name).replace('{a}', a)
+            elif q < p_bad + p_odd:
+                t = rnd.choice(ODD_KEYS)
+                if ',,' in t:
+                    if ',' in aliases:
+                        t = '{n},{a},'
+                    aliases.add(',')
+                a = fresh_alias() or 'a'
+                key = t.replace('{n}', name).replace('{a}', a)
+            else:
+                key = name
+                r = rnd.random()
+                if r < 0.3:
+                    key += '!'
+                elif r < 0.4:
+                    key += '\\!'                            # the name ends in '!'
+                    used.add(name + '!')
+                if rnd.random() < 0.6:
+                    a = fresh_alias(ALIAS_CH + '@@@00') if rnd.random() < 0.9 else None
+                    if a:
+                        key += ',' + a
+                if rnd.random() < 0.4:
+                    lv = rnd.choice([0, 1, 2, 3, 4, 5])
+                    key += ',@' + rnd.choice(['', '', '', '0', '00']) + str(lv)
+            enc += enc_str(key) + [0, 0, vl, flag | 2] + rand_value_fields(rnd)
+    return enc
+
+
 def enc_dirs(ds):
     e = [len(ds)]
     for d in ds:
@@ -456,6 +676,12 @@ def gen(seed, tier):
     total = {'quick': 3000, 'thorough': 100000, 'search': 6000}.get(tier, 3000)
     out = [(c, {'kind': 'fixed'}) for c in FIXED]
     while len(out) < total:
+        if rnd.random() < 0.25:
+            # options declared through key strings, groups whose level is lowered after the declaration; 1/3 with malformed / unsettled keys
+            q = rnd.random()
+            bad, odd = (0.0, 0.0) if q < 0.65 else (0.35, 0.0) if q < 0.85 else (0.15, 0.3)
+            out.append((gen_keyed_case(rnd, bad, odd), {'kind': 'declared-through-keys' + ('-malformed' if bad and not odd else '-unsettled' if odd else '')}))
+            continue
         unsafe = rnd.random() < 0.15
         refused = rnd.random() < 0.35
         merge = rnd.random() < 0.3
@@ -522,12 +748,69 @@ def _merge_fixed():
 FIXED += _merge_fixed()
 
 
+def _kopt(key, vl=0, flag=0, arg='<n>', dflt='1', desc='%D'):
+    e = enc_str(key) + [0, 0, vl, flag | 2]
+    for x in (arg, None, dflt):
+        e += [0] if x is None else [1] + enc_str(x)
+    return e + enc_str(desc)
+
+
+def _keyed_fixed():
+    out = []
+    # the demonstration of seeded C19-r8: an expert group "Solving" (level 2) declares restarts,r / seed-mode,s / luby,@1 / depth; a basic group with the same
+    # caption (level 0) declares threads,t; merged by add -> level 0.  restarts and seed-mode keep level 2, luby 1, depth 0 (plain key: level of the value).
+    expert = [_kopt('restarts,r', dflt='100', desc='Restart interval (%D)'), _kopt('seed-mode,s', arg='<m>', dflt='fixed', desc='Seed mode %A'),
+              _kopt('luby,@1', dflt='7', desc='Luby unit'), _kopt('depth', dflt='3', desc='Depth')]
+    basic = [_kopt('threads,t', dflt='1', desc='Number of threads')]
+    for active in range(5):
+        e = [active, 4, 2] + enc_str('Solving') + [2, len(expert)]
+        for x in expert:
+            e += x
+        e += enc_str('Solving') + [0, len(basic)]
+        for x in basic:
+            e += x
+        out.append(e)
+        # the same group lowered by setDescriptionLevel(0) before its add instead of by a merge
+        e = [active, 4, 1] + enc_str('Solving') + [8 * (2 + 1) + 0, len(expert)]
+        for x in expert:
+            e += x
+        out.append(e)
+    # every subset of the optional parts (negation mark, alias, @level), declared in a group of level 3 that is lowered to 1, values of level 0 and 4
+    keys = ['p0', 'p1!', 'p2,a', 'p3!,b', 'p4,@2', 'p5!,@2', 'p6,c,@2', 'p7!,d,@2', 'p8\\!', 'p9\\!,e', 'q0,+', 'q1,@,@4', 'q2,0', 'q3,@05', 'q4!,@000']
+    for vl in (0, 4):
+        for active in (0, 1, 2, 3, 4):
+            e = [active, 0, 1] + enc_str('Expert') + [8 * (3 + 1) + 1, len(keys)]
+            for k in keys:
+                e += _kopt(k, vl=vl)
+            out.append(e)
+    # malformed keys: every one must be refused, the options around them are declared as usual
+    bad = [k.replace('{n}', 'bad%d' % i).replace('{a}', 'z') for i, k in enumerate(BAD_KEYS)]
+    e = [2, 0, 1] + enc_str('G') + [2, len(bad) + 2] + _kopt('first,@')
+    for k in bad:
+        e += _kopt(k)
+    e += _kopt('last,l,@1')
+    out.append(e)
+    # the corners the syntax does not settle (correspondence with the model)
+    odd = [k.replace('{n}', 'odd%d' % i).replace('{a}', 'ABCDEFGHIJKLMNOP'[i]) for i, k in enumerate(ODD_KEYS) if ',,' not in k] + ['oddc,,,@3']
+    e = [5, 0, 1] + enc_str('G') + [8 * (4 + 1) + 0, len(odd)]
+    for k in odd:
+        e += _kopt(k)
+    out.append(e)
+    return out
+
+
+FIXED += _keyed_fixed()
+
+
 def encode(active, prefix, groups, dirs=()):
     e = [active, prefix, len(groups)]
     for g in groups:
-        e += [len(g['cap'])] + list(g['cap']) + [g['level'], len(g['opts'])]
+        e += [len(g['cap'])] + list(g['cap']) + [g.get('level_raw', g['level']), len(g['opts'])]
         for o in g['opts']:
-            e += [len(o['name'])] + list(o['name']) + [o['alias'], 1 if o['neg'] else 0, o['level'], 1 if o['flag'] else 0]
+            if o.get('kstat') is not None:
+                e += [len(o['key'])] + list(o['key']) + [0, 0, o['vlevel'], (1 if o['flag'] else 0) | 2]
+            else:
+                e += [len(o['name'])] + list(o['name']) + [o['alias'], 1 if o['neg'] else 0, o['level'], 1 if o['flag'] else 0]
             for x in (o['arg_raw'], o['impl_raw'], o['dflt']):
                 e += [0] if x is None else [1, len(x)] + list(x)
             e += [len(o['desc'])] + list(o['desc'])
@@ -573,6 +856,8 @@ def shrink(case, fails):
                 for fld, val in (('desc', []), ('impl_raw', None), ('arg_raw', None), ('alias', 0), ('neg', False)):
                     if groups[gi]['opts'][oi][fld] in (val, None, 0, False, []):
                         continue
+                    if groups[gi]['opts'][oi].get('kstat') is not None and fld in ('alias', 'neg'):
+                        continue                       # part of the key string
                     t = copy.deepcopy(groups)
                     t[gi]['opts'][oi][fld] = val
                     if fails(encode(active, prefix, t, dirs)):
